@@ -270,3 +270,223 @@ Proof.
   - unfold model_of, sem_file. rewrite Es2, Et2, Ec2, Et, Ec, Esch, Em, Emod.
     destruct (f_header f); reflexivity.
 Qed.
+
+(* ---------------------------------------------------------------------------------------- *)
+(* C09: an accepted document declares nothing twice                                          *)
+(* ---------------------------------------------------------------------------------------- *)
+
+Lemma NoDup_dec_str (l : list str) : {NoDup l} + {~ NoDup l}.
+Proof.
+  induction l as [|x l IH]; [left; constructor|].
+  destruct (in_dec (list_eq_dec N.eq_dec) x l) as [Hin|Hnin].
+  - right. intros H. inversion H; contradiction.
+  - destruct IH as [Hnd|Hd]; [left; constructor; auto|right; intros H; inversion H; contradiction].
+Qed.
+
+Lemma app_eq_self {A} (l more : list A) : l ++ more = l -> more = [].
+Proof.
+  intros H. apply (f_equal (@length A)) in H. rewrite app_length in H.
+  destruct more; [reflexivity|simpl in H; lia].
+Qed.
+
+Ltac norm_td t H Ee Em :=
+  unfold walk_typedecl in H; fold (tname t) in H;
+  do 3 (rewrite ?Ee, ?Em in H; cbn [andb negb add_err ls_modular ls_module ls_exts ls_ext_alloc ls_types ls_errs] in H).
+
+(* one type declaration: errors only grow; if they do not grow the declaration was clean *)
+Lemma walk_typedecl_clean t s s' :
+  Forall (fun r => wf_rdef (rl_def r) = true) (ty_rels t) -> tname t <> [] ->
+  walk_typedecl t s = Ok s' ->
+  (exists more, ls_errs s' = ls_errs s ++ more) /\
+  (ls_errs s' = ls_errs s ->
+   NoDup (map rname (ty_rels t)) /\
+   (ty_extend t = true -> ls_modular s = true /\ ls_ext_alloc s = true /\ assoc (tname t) (ls_exts s) = None)).
+Proof.
+  intros Hwf Hname H.
+  destruct (NoDup_dec_str (map rname (ty_rels t))) as [Hnd|Hdup].
+  - (* relation names distinct: look at the extend conditions *)
+    destruct (ty_extend t) eqn:Ee.
+    + destruct (ls_modular s) eqn:Em.
+      * destruct (assoc (tname t) (ls_exts s)) eqn:Ex.
+        -- assert (Hx : assoc (tname t) (ls_exts s) <> None) by congruence.
+           pose proof (walk_typedecl_extended_twice t s s' Ee Em Hname Hx H) as Hne.
+           split.
+           ++ norm_td t H Ee Em.
+              rewrite (walk_reldecls_sem true true (ls_module s) (tname t) (ty_rels t) Hwf Hnd [] [] []) in H by (intros; split; reflexivity).
+              cbn [obind app] in H. destruct (tname t) as [|c0 nm] eqn:En; [contradiction|].
+              cbn [ls_exts] in H. rewrite ?Em in H. cbn [andb] in H. rewrite Ex in H. inversion H; subst. unfold add_err; simpl.
+              eexists. rewrite app_nil_r. reflexivity.
+           ++ intros E; contradiction.
+        -- destruct (ls_ext_alloc s) eqn:Ea.
+           ++ rewrite (walk_typedecl_sem t s Hwf Hnd Hname) in H by (intros _; auto).
+              inversion H; subst. split; [exists []; rewrite app_nil_r; reflexivity|]. intros _. split; auto.
+           ++ exfalso. norm_td t H Ee Em.
+              rewrite (walk_reldecls_sem true true (ls_module s) (tname t) (ty_rels t) Hwf Hnd [] [] []) in H by (intros; split; reflexivity).
+              cbn [obind app] in H. destruct (tname t) as [|c0 nm] eqn:En; [contradiction|].
+              cbn [ls_exts ls_ext_alloc] in H. rewrite ?Em in H. cbn [andb] in H. rewrite Ex, Ea in H. discriminate.
+      * pose proof (walk_typedecl_extend_in_model t s s' Ee Em H) as Hne. split; [|intros E; contradiction].
+        norm_td t H Ee Em.
+        rewrite (walk_reldecls_sem false true (ls_module s) (tname t) (ty_rels t) Hwf Hnd [] [] []) in H by (intros; split; reflexivity).
+        cbn [obind app] in H. destruct (tname t) as [|c0 nm] eqn:En; [contradiction|].
+        cbn [add_err ls_modular andb] in H. inversion H; subst. simpl. eexists. rewrite app_nil_r. reflexivity.
+    + rewrite (walk_typedecl_sem t s Hwf Hnd Hname) in H by (intros E; congruence).
+      inversion H; subst. split; [exists []; rewrite app_nil_r; reflexivity|]. intros _. split; [auto|intros E; congruence].
+  - (* a relation is defined twice: the relation walker appends an error, and nothing removes it *)
+    unfold walk_typedecl in H. fold (tname t) in H.
+    set (s0 := if ty_extend t && negb (ls_modular s) then _ else s) in H.
+    assert (Hs0 : exists pre, ls_errs s0 = ls_errs s ++ pre).
+    { unfold s0. destruct (ty_extend t && negb (ls_modular s)); [eexists; reflexivity|exists []; rewrite app_nil_r; reflexivity]. }
+    destruct Hs0 as [pre Epre].
+    destruct (walk_reldecls (ls_modular s0) (ty_extend t) (ls_module s0) (tname t) (ty_rels t) [] [] []) as [[[rels meta] errs]| |] eqn:Ew;
+      cbn [obind] in H; try discriminate.
+    assert (Herrs : errs <> []) by (eapply (walk_reldecls_duplicate _ _ _ _ _ Hwf [] [] [] rels meta errs); [left; exact Hdup|exact Ew]).
+    destruct (tname t) as [|c0 nm] eqn:En; [contradiction|].
+    assert (Hgrow : exists more, ls_errs s' = ls_errs s ++ pre ++ errs ++ more).
+    { destruct (ty_extend t && ls_modular s0).
+      - cbn [ls_exts] in H. destruct (assoc (c0 :: nm) (ls_exts s0)).
+        + inversion H; subst. unfold add_err; simpl. rewrite Epre, <- !app_assoc. eexists; reflexivity.
+        + cbn [ls_ext_alloc] in H. destruct (ls_ext_alloc s0); [|discriminate]. inversion H; subst; simpl.
+          rewrite Epre, <- !app_assoc. exists []. rewrite app_nil_r. reflexivity.
+      - inversion H; subst; simpl. rewrite Epre, <- !app_assoc. exists []. rewrite app_nil_r. reflexivity. }
+    destruct Hgrow as [more Eg]. split; [eexists; exact Eg|].
+    intros E. rewrite E in Eg. symmetry in Eg. apply app_eq_self in Eg.
+    apply app_eq_nil in Eg. destruct Eg as [_ Eg]. apply app_eq_nil in Eg. destruct Eg as [Eg _]. contradiction.
+Qed.
+
+Lemma walk_typedecls_grow ts :
+  Forall (fun t => Forall (fun r => wf_rdef (rl_def r) = true) (ty_rels t)) ts ->
+  Forall (fun t => tname t <> []) ts ->
+  forall s s', walk_typedecls ts s = Ok s' -> exists more, ls_errs s' = ls_errs s ++ more.
+Proof.
+  induction ts as [|t ts IH]; intros Hwf Hname s s' H.
+  - simpl in H. inversion H; subst. exists []. rewrite app_nil_r. reflexivity.
+  - inversion Hwf as [|? ? Hwt Hwts]; subst. inversion Hname as [|? ? Hnt Hnts]; subst. cbn [walk_typedecls] in H.
+    destruct (walk_typedecl t s) as [s1| |] eqn:E1; cbn [obind] in H; try discriminate.
+    destruct (proj1 (walk_typedecl_clean t s s1 Hwt Hnt E1)) as [m1 Em1].
+    destruct (IH Hwts Hnts s1 s' H) as [m2 Em2].
+    exists (m1 ++ m2). rewrite Em2, Em1, app_assoc. reflexivity.
+Qed.
+
+Lemma assoc_app_single_inv {A} k k' (v : A) l : assoc k (l ++ [(k', v)]) = None -> assoc k l = None /\ k <> k'.
+Proof.
+  intros H. destruct (assoc k l) eqn:E.
+  - exfalso. clear -H E. induction l as [|[k0 v0] l IH]; simpl in *; [discriminate|].
+    destruct (str_eqb k k0); [discriminate|]. auto.
+  - split; [reflexivity|]. rewrite assoc_app_none in H by exact E. simpl in H.
+    destruct (str_eqb_spec k k'); [discriminate|assumption].
+Qed.
+
+Lemma walk_typedecls_clean ts :
+  Forall (fun t => Forall (fun r => wf_rdef (rl_def r) = true) (ty_rels t)) ts ->
+  Forall (fun t => tname t <> []) ts ->
+  forall s s', walk_typedecls ts s = Ok s' -> ls_errs s' = ls_errs s ->
+  Forall (fun t => NoDup (map rname (ty_rels t))) ts /\
+  (forall t, In t ts -> ty_extend t = true -> ls_modular s = true) /\
+  NoDup (map tname (filter ty_extend ts)) /\
+  (forall t, In t (filter ty_extend ts) -> assoc (tname t) (ls_exts s) = None).
+Proof.
+  induction ts as [|t ts IH]; intros Hwf Hname s s' H Herr.
+  - simpl. repeat split; try constructor; intros t [].
+  - inversion Hwf as [|? ? Hwt Hwts]; subst. inversion Hname as [|? ? Hnt Hnts]; subst. cbn [walk_typedecls] in H.
+    destruct (walk_typedecl t s) as [s1| |] eqn:E1; cbn [obind] in H; try discriminate.
+    destruct (walk_typedecl_clean t s s1 Hwt Hnt E1) as [[m1 Em1] Hclean].
+    destruct (walk_typedecls_grow ts Hwts Hnts s1 s' H) as [m2 Em2].
+    assert (Hm : m1 = [] /\ m2 = []).
+    { rewrite Em2, Em1, <- app_assoc in Herr. apply app_eq_self in Herr. apply app_eq_nil in Herr. exact Herr. }
+    destruct Hm as [-> ->]. rewrite app_nil_r in Em1, Em2.
+    destruct (Hclean Em1) as [Hnd Hext].
+    assert (Es1 : s1 = after_type s t).
+    { rewrite (walk_typedecl_sem t s Hwt Hnd Hnt Hext) in E1. inversion E1; reflexivity. }
+    destruct (IH Hwts Hnts s1 s' H Em2) as [Hnds [Hmods [Hndx Hfresh]]].
+    subst s1. cbn [after_type ls_modular ls_exts] in *.
+    split; [constructor; auto|]. split; [|split].
+    + intros t' [<-|Hin] He; [apply Hext; exact He|eapply Hmods; eauto].
+    + simpl. destruct (ty_extend t) eqn:Ee; [|exact Hndx]. simpl. constructor; [|exact Hndx].
+      intros Hin. apply in_map_iff in Hin. destruct Hin as [t' [En Hin']].
+      destruct (assoc_app_single_inv _ _ _ _ (Hfresh t' Hin')) as [_ Hne]. congruence.
+    + intros t' Hin. simpl in Hin. destruct (ty_extend t) eqn:Ee.
+      * destruct Hin as [<-|Hin]; [apply Hext; reflexivity|].
+        destruct (assoc_app_single_inv _ _ _ _ (Hfresh t' Hin)) as [Hn _]. exact Hn.
+      * apply Hfresh. exact Hin.
+Qed.
+
+(* conditions: a repeated condition or parameter name raises an error *)
+Lemma walk_params_clean cname ps :
+  forall acc errs acc' errs', walk_params cname ps acc errs = (acc', errs') ->
+  (exists more, errs' = errs ++ more) /\
+  (errs' = errs -> NoDup (map pname ps) /\ forall p, In p ps -> assoc (pname p) acc = None).
+Proof.
+  induction ps as [|p ps IH]; intros acc errs acc' errs' H.
+  - simpl in H. inversion H; subst. split; [exists []; rewrite app_nil_r; reflexivity|]. intros _. split; [constructor|intros p []].
+  - cbn [walk_params] in H. fold (pname p) in H.
+    destruct (assoc (pname p) acc) eqn:Ea.
+    + destruct (IH _ _ _ _ H) as [[more E] _]. split; [exists ([err_at (pd_name p) (msg_param_defined (pname p) cname)] ++ more); rewrite E, <- app_assoc; reflexivity|].
+      intros Heq. rewrite Heq in E. rewrite <- app_assoc in E. symmetry in E. apply app_eq_self in E. discriminate.
+    + destruct (IH _ _ _ _ H) as [[more E] Hc]. split; [exists more; exact E|].
+      intros Heq. destruct (Hc Heq) as [Hnd Hfresh]. split.
+      * simpl. constructor; auto. intros Hin. apply in_map_iff in Hin. destruct Hin as [p' [En Hin]].
+        specialize (Hfresh p' Hin). rewrite assoc_set_fresh in Hfresh by exact Ea.
+        destruct (assoc_app_single_inv _ _ _ _ Hfresh) as [_ Hne]. congruence.
+      * intros p' [<-|Hin]; [exact Ea|]. specialize (Hfresh p' Hin). rewrite assoc_set_fresh in Hfresh by exact Ea.
+        destruct (assoc_app_single_inv _ _ _ _ Hfresh) as [Hn _]. exact Hn.
+Qed.
+
+Lemma walk_conddecl_clean c s :
+  (exists more, ls_errs (walk_conddecl c s) = ls_errs s ++ more) /\
+  (ls_errs (walk_conddecl c s) = ls_errs s ->
+   NoDup (map pname (cd_params c)) /\ assoc (cname c) (ls_conds s) = None).
+Proof.
+  unfold walk_conddecl. cbv zeta. fold (cname c).
+  destruct (walk_params (cname c) (cd_params c) [] []) as [params errs] eqn:Ep.
+  destruct (walk_params_clean _ _ _ _ _ _ Ep) as [[more Em] Hc]. simpl in Em. subst errs.
+  destruct (assoc (cname c) (ls_conds s)) eqn:Ea; cbn [ls_errs add_err].
+  - split; [eexists; rewrite <- app_assoc; reflexivity|].
+    intros E. rewrite <- app_assoc in E. apply app_eq_self in E. discriminate.
+  - split; [eexists; reflexivity|]. intros E. apply app_eq_self in E. subst more.
+    split; [|reflexivity]. apply (Hc eq_refl).
+Qed.
+
+Lemma walk_conddecls_clean cs :
+  forall s, let s' := fold_left (fun s c => walk_conddecl c s) cs s in
+  (exists more, ls_errs s' = ls_errs s ++ more) /\
+  (ls_errs s' = ls_errs s ->
+   Forall (fun c => NoDup (map pname (cd_params c))) cs /\ NoDup (map cname cs) /\
+   forall c, In c cs -> assoc (cname c) (ls_conds s) = None).
+Proof.
+  induction cs as [|c cs IH]; intros s; cbn [fold_left].
+  - split; [exists []; rewrite app_nil_r; reflexivity|]. intros _. repeat split; try constructor. intros c [].
+  - destruct (walk_conddecl_clean c s) as [[m1 E1] Hc1].
+    destruct (IH (walk_conddecl c s)) as [[m2 E2] Hc2]. cbv zeta in *.
+    split; [exists (m1 ++ m2); rewrite E2, E1, app_assoc; reflexivity|].
+    intros E. rewrite E2, E1, <- app_assoc in E. apply app_eq_self in E. apply app_eq_nil in E. destruct E as [-> ->].
+    rewrite app_nil_r in E1, E2. destruct (Hc1 E1) as [Hp Hfresh]. destruct (Hc2 E2) as [Hps [Hnd Hfr]].
+    assert (Ew : ls_conds (walk_conddecl c s) = ls_conds s ++ [sem_cond (ls_modular s) (ls_module s) c]).
+    { rewrite (walk_conddecl_sem c s Hp Hfresh). reflexivity. }
+    split; [constructor; auto|]. split.
+    + simpl. constructor; auto. intros Hin. apply in_map_iff in Hin. destruct Hin as [c' [En Hin]].
+      specialize (Hfr c' Hin). rewrite Ew in Hfr. unfold sem_cond in Hfr.
+      destruct (assoc_app_single_inv _ _ _ _ Hfr) as [_ Hne]. apply Hne. exact En.
+    + intros c' [<-|Hin]; [exact Hfresh|]. specialize (Hfr c' Hin). rewrite Ew in Hfr. unfold sem_cond in Hfr.
+      destruct (assoc_app_single_inv _ _ _ _ Hfr) as [Hn _]. exact Hn.
+Qed.
+
+(* C09, the "equivalently" form: whenever the listener accepts a grammatical document, nothing in it is
+   declared twice, no `extend` stands in a model file and no type is extended twice *)
+Theorem walk_accepts_only_distinct f s :
+  wf_file f -> Forall (fun t => tname t <> []) (f_types f) ->
+  walk f = Ok s -> ls_errs s = [] -> distinct_decls f.
+Proof.
+  intros Hwf Hname H Herr. unfold walk in H.
+  destruct (walk_typedecls (f_types f) (init_lstate (f_header f))) as [s1| |] eqn:Ew; cbn [obind] in H; try discriminate.
+  inversion H; subst; clear H.
+  destruct (walk_typedecls_grow _ Hwf Hname _ _ Ew) as [m1 E1].
+  destruct (walk_conddecls_clean (f_conds f) s1) as [[m2 E2] Hcc]. cbv zeta in *.
+  assert (Hinit : ls_errs (init_lstate (f_header f)) = []) by (destruct (f_header f); reflexivity).
+  rewrite E2, E1, Hinit in Herr. simpl in Herr. apply app_eq_nil in Herr. destruct Herr as [-> ->].
+  rewrite app_nil_r in E1, E2.
+  destruct (walk_typedecls_clean _ Hwf Hname _ _ Ew E1) as [Hrel [Hmod [Hndx _]]].
+  destruct (Hcc E2) as [Hpar [Hcond _]].
+  repeat split; auto.
+  intros Hm. apply Forall_forall. intros t Hin. destruct (ty_extend t) eqn:Ee; [|reflexivity].
+  specialize (Hmod t Hin Ee). destruct (f_header f); simpl in *; congruence.
+Qed.
